@@ -10,7 +10,10 @@ import random
 
 from . import core, syntax, progs, lexgen, c01
 
-MENU = ["$a = ;", "1 2 ;", "$x = = 3;", "foo( , );", "$y->;", "+ ;", "if ();"]
+# token runs that are never a (prefix of a) valid statement; the second group is not bracket-balanced: a stray ')' or ']'
+# is itself the malformed statement (a stray '}' would legitimately close the enclosing block, so it is not used)
+MENU = ["$a = ;", "1 2 ;", "$x = = 3;", "foo( , );", "$y->;", "+ ;", "if ();",
+        ")", "]", "$q = 2 3;", "echo 1 2;", "g(1 2);", "=> 1;", "$r = 1 + -$s ** 2 3;", "new;", "$t[1 2];", ") ]"]
 
 
 def wrap(kind, stmts):
